@@ -69,6 +69,15 @@ func ruleND1(p *Program, c *Check, funcs []*ssa.Function) {
 							c.Pass("ND-1", fk, "call:"+name, p.ipos(in), "logging/response call in the handler layer")
 						}
 					default:
+						if name == "reflect.(Value).MapKeys" {
+							// keys in unspecified order: allowed only at confirmed sites
+							if why, ok := tabledMapKeysSites[fk]; ok {
+								c.Pass("ND-1", fk, "call:"+name, p.ipos(in), "keys in unspecified order: "+why)
+							} else {
+								c.Fail("ND-1", fk, "call:"+name, p.ipos(in), "reflect MapKeys returns the keys in unspecified order and this site is not in the table of confirmed order-insensitive uses")
+							}
+							continue
+						}
 						// %p formatting leaks addresses
 						bad := false
 						if extPkgPath(ext) == "fmt" {
@@ -289,6 +298,11 @@ var tabledSortSites = map[string]string{
 	"choquet.prepareCriteriaInAscendingOrder":                        "sorted by value; exactly-equal values form one tie group in computeTotalWeight whose members are re-sorted by name (criterionKey)",
 	"owa.additionAsOwaParams":                                        "ids sorted by sort.Strings; map keys are unique",
 	"fx.OkMapSorted":                                                 "positive-control twin in /verif/fixtures: only the values are kept and sorted",
+}
+
+// reflect.Value.MapKeys sites whose use of the keys is order-insensitive (confirmed by reading).
+var tabledMapKeysSites = map[string]string{
+	"utils.rejectAmbiguousKeys": "struct target: the keys are sorted before the duplicate check; map target: every value is visited and the visit only reads (a rejection may name another pair, which C02 allows)",
 }
 
 // reachesGenerator: does f (transitively, bounded) call a ValueGenerator?
